@@ -53,6 +53,38 @@ theorem versioned_deserialize_is_plain (O : Oracles) (opts : DeserOpts) (c : Cla
   rcases docVersion_obj hv' with ⟨kvs', rfl, hg'⟩
   rw [c17_forced_version_noop O opts c fields defaults _ kvs' o hf hin hg']
 
+/-- **versioned_instance_latest**: whatever document a `Versioned` class (integer `version` field) accepts — at any
+    version, with any history — the instance it returns carries version `len(_versions_mapping) + 1` -/
+theorem versioned_instance_latest (O : Oracles) (opts : DeserOpts) (c : ClassOpts)
+    (fields : List (String × FieldDecl)) (defaults : List (String × PyVal)) (o : NumOpts)
+    (ms : Option (List Mapping)) (d : Json) (x : PyVal)
+    (hf : ∀ f, ("version", f) ∈ fields → f = FieldDecl.integer o) (hin : "version" ∈ fields.map (·.1))
+    (h : deserializeVersioned O opts (FieldDecl.struct c fields defaults) ms d = .ok (.ok x)) :
+    ∃ attrs, x = .inst c.name attrs ∧ lookup "version" attrs = some (.int (((ms.getD []).length : Int) + 1)) := by
+  rcases Typedpy.Convert.deserVersioned_ok h with ⟨d', hd'⟩
+  exact c17_versionedRest_version O opts c fields defaults _ d' o hf hin x hd'.symm
+
+/-- the same with `direct_trusted_mapping=True`: `from_trusted_data` still runs `Versioned.__init__` -/
+theorem versioned_instance_latest_trusted (O : Oracles) (opts : DeserOpts) (c : ClassOpts)
+    (fields : List (String × FieldDecl)) (defaults : List (String × PyVal)) (o : NumOpts)
+    (ms : Option (List Mapping)) (d : Json) (n : String) (attrs : List (String × PyVal))
+    (hf : ∀ f, ("version", f) ∈ fields → f = FieldDecl.integer o) (hin : "version" ∈ fields.map (·.1))
+    (h : deserializeVersionedTrusted O opts (FieldDecl.struct c fields defaults) ms d = .ok (.ok (.inst n attrs))) :
+    lookup "version" attrs = some (.int (((ms.getD []).length : Int) + 1)) := by
+  rcases Typedpy.Convert.deserVersioned_ok h with ⟨d', hd'⟩
+  simp only [versionedRestTrusted] at hd'
+  split at hd'
+  · rcases c17_versionedRest_version O opts c fields defaults _ d' o hf hin _ hd'.symm with ⟨attrs', he, hl⟩
+    cases he
+    exact hl
+  · split at hd'
+    · cases hd'
+      exact c17_lookup_setKw _ _ _
+    · rename_i hne
+      exact absurd hd'.symm (by
+        intro hx
+        exact hne _ _ hx)
+
 /-- non-vacuity: a class `V(version: PositiveInt, name: String)` without additional properties, history
     "rename `full` to `name`": the version-1 document deserializes to the instance `V(version=2, name="j")`, the
     same as its converted form; a document at version 0 … is accepted too (finding) -/
